@@ -8,6 +8,7 @@ import (
 	"go.dedis.ch/kyber/v4/group/edwards25519"
 	"go.dedis.ch/kyber/v4/group/edwards25519vartime"
 	"go.dedis.ch/kyber/v4/group/mod"
+	"go.dedis.ch/kyber/v4/group/p256"
 
 	"verif/internal/c02core"
 	"verif/internal/gen"
@@ -39,13 +40,23 @@ func c02(r *mon.R) {
 		}
 		// the full edwards25519vartime group (order 8Q, composite modulus) and mod.Int with both byte orders on odd moduli of several word sizes
 		fg := edwards25519vartime.NewBlakeSHA256Ed25519(true)
-		_ = fg
+		{
+			qf := new(big.Int).Set(fg.Scalar().GroupOrder().ToBigInt())
+			impls = append(impls, c02core.Impl{Name: "edvartime-full(composite order 8l)", New: func() kyber.Scalar { return fg.Scalar() }, Q: qf, Len: fg.ScalarLen()})
+		}
+		// a residue group whose order is below 2^63 (int64 arguments can exceed it)
+		{
+			rg := new(p256.ResidueGroup)
+			rg.SetParams(big.NewInt(2000000579), big.NewInt(1000000289), big.NewInt(2), big.NewInt(4))
+			impls = append(impls, c02core.Impl{Name: "residue-31bit", New: func() kyber.Scalar { return rg.Scalar() }, Q: big.NewInt(1000000289), Len: rg.ScalarLen()})
+		}
 		for _, m := range []struct {
 			name string
 			q    string
 		}{
 			{"modint-le-127", "170141183460469231731687303715884105727"},
 			{"modint-be-64", "18446744073709551557"},
+			{"modint-be-61", "2305843009213693951"},
 			{"modint-be-521", "6864797660130609714981900799081393217269435300143305409394463459185543183397656052122559640661454554977296311391480858037121987999716643812574028291115057151"},
 		} {
 			q, _ := new(big.Int).SetString(m.q, 10)
